@@ -72,3 +72,12 @@ _l0_prev_generate = globals().get("generate")
 def generate(res):
     notes = list(_l0_prev_generate(res) or []) if (_l0_prev_generate and _l0_prev_generate is not _l0.generate) else []
     return notes + list(_l0.generate(res) or [])
+
+# ---- tree layer (see props/C05.py, Props/Properties_C05_tree.v): what is proved towards builder_refines
+LEVEL_NOTE = LEVEL_NOTE + (
+    " TREE LAYER (stated under C05, Properties_C05_tree.v): single level only - in every reachable state the encoding "
+    "specification's resolver (Spec.spec_resolve, strict) maps every pointer slot of every table object and the root to null, a "
+    "capability, a zero-sized target or exactly the spec target of one table object (C05_tree_slots_sublang, from the new bridge "
+    "C05_resolve_ptr_is_spec), and the spec decoder's struct data / primitive list elements are the segment bytes at the "
+    "object's address (C05_spec_struct_data, C05_spec_list_elem). builder_refines itself (abstract-store interpreter, abs_step, "
+    "whole-tree equality by induction on fuel) is still NOT STATED / NOT PROVED; the tree equality remains checked by the runs.")
